@@ -70,9 +70,11 @@ def run(rep, tier):
         ('LATE-bound', 'non-local rule references are emitted through _ctx in the context convention'),
         ('INSTALL-sys-modules', 'every path of _install_module registers the module'),
         ('ROUTE-raises', 'the translator compiles every inheritance route without raising'),
+        ('START-inherited', 'a sub-grammar without a start of its own starts the nearest inherited start (rule or class) through _ctx'),
+        ('SUBIMPORT-complete', 'the sub-grammar prologue imports every runtime name emitted code can mention'),
     ]:
         rep.rule(rid, txt)
-    found, stats, nmods = routes.run(rep, 'C13', ['SUPER-', 'WIRE-', 'FREE-name', 'CONV-'],
+    found, stats, nmods = routes.run(rep, 'C13', ['SUPER-', 'WIRE-', 'FREE-name', 'CONV-', 'SUBIMPORT-', 'START-inherited'],
                                      label_filter=lambda msg: msg.startswith('sub-'))
     rep.floor('route modules emitted', nmods, 26)
     rep.floor('context attribute reads examined', stats['ctx_reads'], 60)
